@@ -137,8 +137,13 @@ def check_site(year, site):
                         goal = sym.term(val, 'real') * rv(want) == (z3.ToReal(cs) if ck == 'int' else cs)
                         clause = f'{lname} == {site["symbol"]} / {float(want)} (official {site["official"]}[{year}][{mtxt}])'
                     else:
-                        goal = sym.term(val, 'real') == rv(want) * (z3.ToReal(cs) if ck == 'int' else cs)
-                        clause = f'{lname} == {float(want)} * {site["symbol"]} (official {site["official"]}[{year}])'
+                        x = z3.ToReal(cs) if ck == 'int' else cs
+                        if site.get('floor_at_zero'):
+                            goal = sym.term(val, 'real') == z3.If(x > 0, rv(want) * x, 0)
+                            clause = f'{lname} == {float(want)} * {site["symbol"]}, zero when that is zero or less (official {site["official"]}[{year}])'
+                        else:
+                            goal = sym.term(val, 'real') == rv(want) * x
+                            clause = f'{lname} == {float(want)} * {site["symbol"]} (official {site["official"]}[{year}])'
                 st, model, be, secs, txt = smt.prove(hyp, goal)
                 if st != 'discharged':
                     mdl, _ = replay.solve_model(p, extra=sel + assume + [z3.Not(goal)])
